@@ -196,7 +196,8 @@ def check(case, ctx):
         except IndexError:
             exp_exc = IndexError
         jobs = [("a[%r:%r:%r]" % (sl.start, sl.stop, sl.step), lambda: a[sl]),
-                ("a.take(slice(%r,%r,%r), axis='t')" % (sl.start, sl.stop, sl.step), lambda: a.take(sl, axis='t'))]
+                ("a.take(slice(%r,%r,%r), axis='t')" % (sl.start, sl.stop, sl.step), lambda: a.take(sl, axis='t')),
+                ("a.take(slice(%r,%r,%r), axis=-1)" % (sl.start, sl.stop, sl.step), lambda: a.take(sl, axis=-1))]
         if blk != "mono" or (case["start"] is None or case["stop"] is None):
             jobs.append(("a.loc[%r:%r:%r]" % (sl.start, sl.stop, sl.step), lambda: a.loc[sl]))
             jobs.append(("a.sel(t=slice(%r,%r,%r))" % (sl.start, sl.stop, sl.step), lambda: a.sel(t=sl)))
@@ -228,6 +229,7 @@ def check(case, ctx):
             exp_exc = IndexError
         jobs = [("a[t]", lambda: a[single]),
                 ("a.take({dim: idx})", lambda: a.take({d: ix for d, ix in zip(m.dims, idx) if not c01.is_full(ix)})),
+                ("a.take({negative pos: idx})", lambda: a.take({i - m.ndim: ix for i, ix in enumerate(idx) if not c01.is_full(ix)})),
                 ("a.loc[t]", lambda: a.loc[single])]
         for label, fn in jobs:
             label = "%s with t=%s labels=%s" % (label, codec.short(t, 200), codec.short(m.labels, 200))
